@@ -115,6 +115,25 @@ class HarnessError(Exception):
     """The harness itself is broken (bad plan, worker death). Never reported as VIOLATION."""
 
 
+def match_known(v: dict, known: list) -> "dict | None":
+    """A violation is a known finding only if property, clause and the site pattern all match an entry whose
+    status is 'known'. 'fixed' entries suppress nothing."""
+    import re
+
+    for k in known:
+        if k.get("status") != "known":
+            continue
+        if k["property"] != v["property"]:
+            continue
+        if k.get("clause") and k["clause"] != v["clause"]:
+            continue
+        pat = k.get("site_regex")
+        if pat and not re.search(pat, v.get("site", "")):
+            continue
+        return k
+    return None
+
+
 # --------------------------------------------------------------------------- ddmin
 def ddmin(items: Sequence[Any], fails: Callable[[list[Any]], bool], max_tests: int = 400) -> list[Any]:
     """Classic delta debugging to a 1-minimal failing subsequence. `fails(sub)` must be
